@@ -521,6 +521,12 @@ func init() {
 			c.Begin("c16", t.name)
 			t.run(c)
 		},
-		Budget: func(tier string) time.Duration { return 30 * time.Minute },
+		// every execution builds an encoder with its own block buffer (up to 1 MiB): at tens of thousands of executions
+		// per second the heap can outgrow the collector; a soft limit keeps workers far below their address-space limit
+		WorkerEnv: []string{"GOMEMLIMIT=2GiB"},
+		// the address-space limit counts what the Go heap has ever mapped, not what is live: with 1 MiB objects made
+		// and dropped at this rate the mapping grows far beyond the live heap (observed: 6 GiB mapped, a few MiB live)
+		MemLimit: 48 << 30,
+		Budget:   func(tier string) time.Duration { return 30 * time.Minute },
 	})
 }
